@@ -1,0 +1,16 @@
+//go:build verif
+
+package exec
+
+// Verification hook H4 (build tag verif): scheduling gates around the two steps of a request that
+// touch the interpreter's program source (binding it, reading it back). With the tag off,
+// verif_off.go provides an empty verifGate.
+
+// VerifGate - when non-nil, called at "load-enter", "loaded", "execute-enter", "source-read"
+var VerifGate func(z *Interpreter, point string)
+
+func verifGate(z *Interpreter, point string) {
+	if VerifGate != nil {
+		VerifGate(z, point)
+	}
+}
